@@ -187,3 +187,33 @@ def exc_in_repo(tb_text):
 def short_exc(e):
     s = f"{type(e).__name__}: {e}"
     return s[:300]
+
+
+def scribble(x, _depth=0):
+    """Overwrite, in place, every writable numpy array reachable from a result the library
+    handed out - what a caller may legitimately do with it.  Returns the number of arrays
+    written.  (Later answers of the object that produced the result must not change.)"""
+    import numpy as np
+    n = 0
+    if _depth > 4 or x is None:
+        return 0
+    if isinstance(x, np.ndarray):
+        if x.flags.writeable and x.size:
+            try:
+                if x.dtype.kind == "b":
+                    x[...] = ~x
+                elif x.dtype.kind == "f":
+                    x[...] = -72513.25
+                elif x.dtype.kind in "iu":
+                    x[...] = 3
+                else:
+                    return 0
+            except (ValueError, TypeError):
+                return 0
+            return 1
+        return 0
+    if isinstance(x, (tuple, list)):
+        return sum(scribble(v, _depth + 1) for v in x)
+    if isinstance(x, dict):
+        return sum(scribble(v, _depth + 1) for v in x.values())
+    return n
